@@ -76,3 +76,8 @@ package pledge
 //@   loop 0 invariant r._proposedKey >= old(r._proposedKey) && r.MaxProposals == old(r.MaxProposals)
 //@   loop 0 invariant r._proposedKey == 0 || int(r._proposedKey) + (r.MaxProposals - __ri(0)) < 65535
 //@   loop 0 invariant __ri(0) > 0 ==> err != nil
+
+//@ # ---- lock discipline (C11 over schedules): the keys a juror has approved are read and extended
+//@ # under its mutex - the check "already approved?" and the recording of the approval are one
+//@ # critical section, so two concurrent proposals of one key cannot both be approved
+//@ guarded_by juror.approvals mu
